@@ -36,7 +36,7 @@ def all_pairs():
 
 def magnitudes(rng, kind, tier, n):
     lo, hi = (-12, 12) if tier == 'quick' else (-30, 30)
-    vals = [1.0, 0.1, 1000.0, 2.5e-3, 14.5, 3, 7, 1e-7, 360.0, 0.35]
+    vals = [1.0, 0.1, 1000.0, 2.5e-3, 14.5, 3, 7, 1e-7, 360.0, 0.35, 1e151, 3e200, 2e-151]          # also far-out but finite magnitudes
     for _ in range(n):
         vals.append(10 ** rng.uniform(lo, hi))
     for _ in range(n // 3):
@@ -80,7 +80,8 @@ def check_conversion(ctx, kind, u1, u2, x, case):
     # in place
     q2 = K(x, u1)
     try:
-        r2 = q2.to(u2, inplace=True)
+        # the documented signature is to(target_unit, inplace=False): the flag is passed positionally half of the time
+        r2 = q2.to(u2, True) if hash_small(x) % 2 else q2.to(u2, inplace=True)
     except Exception as ex:
         # the copying conversion of the same value succeeded a moment ago
         ctx.violation('C05:inplace-conversion-raised', {'kind': kind, 'value': x, 'from': u1, 'to': u2, 'copy': [r.value, r.unit],
